@@ -32,9 +32,27 @@ fn small_trust_store() {
     std::env::set_var("SSL_CERT_DIR", dir.join("empty-dir"));
 }
 
+/// A `log` logger that enables every level and discards the records (after formatting them like a real logger would): the
+/// library's log statements are evaluated in every check, and none of them may change what the library does.
+fn install_logger() {
+    struct Discard;
+    impl log::Log for Discard {
+        fn enabled(&self, _: &log::Metadata) -> bool {
+            true
+        }
+        fn log(&self, record: &log::Record) {
+            let _ = std::hint::black_box(format!("{}", record.args()).len());
+        }
+        fn flush(&self) {}
+    }
+    let _ = log::set_logger(&Discard);
+    log::set_max_level(log::LevelFilter::Trace);
+}
+
 fn main() {
     scrub_env();
     small_trust_store();
+    install_logger();
     let args: Vec<String> = std::env::args().skip(1).collect();
     let Some(id) = args.first().cloned() else {
         eprintln!("usage: vcheck <ID> quick|thorough|--replay <path>");
